@@ -1,4 +1,4 @@
-import SlVerif.Proofs.PprfTamper
+import SlVerif.Proofs.PprfAdv
 /-
   C06 — all-but-one PPRF (crates/sl-oblivious/src/soft_spoken/all_but_one.rs), theorems about the model
   `SlVerif.Pprf` at `m := Id` for an ARBITRARY pure oracle `h` (merlin is not assumed to be anything: the positive
@@ -275,6 +275,116 @@ theorem used_word_tamper_rejected_partial (bit : Nat → Nat) (dk : Nat → Byte
   have hcl := corrOf_length h sid (bit 3) (sel (bit 3) w3) (dk 3) Y S hw hdk
   exact xor_delta_ne delta _ (by rw [hdl, hcl]) (by rw [hcl]; exact hδ) heq.symm
 
+/-- **used_word_tamper_changes_leaf** (every level).  The correction word `t[level-1][c]` that the receiver reads
+    (`c` = its choice bit of that level) is XORed with a non-zero `delta`.  Hypotheses: `PrgNoCollision` — the tree PRG
+    (two challenges on one transcript, 32 → 64 bytes) has no collision on 32-byte seeds; the word read and the
+    receiver's base-OT key of that level are 32 bytes long (the Rust types).  Then the punctured index is unchanged and
+    at least one LEARNED leaf changes, and it lies below the node derived from the changed word: `z` shares with `y*`
+    the ancestor of depth `level` but not the ancestor of depth `level+1`. -/
+theorem used_word_tamper_changes_leaf (hG : PrgNoCollision h sid) (bit : Nat → Nat) (dk : Nat → Bytes) (msg : TreeMsg)
+    (level : Nat) (delta : Bytes)
+    (hb : ∀ i < K, bit i ≤ 1) (ht : msg.t.length = K - 1) (hl1 : 1 ≤ level) (hl2 : level ≤ K - 1)
+    (hw : (sel (bit level) (msg.t.getD (level - 1) ([], []))).length = KB) (hdk : (dk level).length = KB)
+    (hdl : delta.length = KB) (hδ : delta ≠ zeros KB) :
+    ∃ z, z ≠ ystarOf bit ∧ z < Q ∧
+      (evalLevels (m := Id) h sid bit dk levels msg.t (evalInit (bit 0) (dk 0)).1 (evalInit (bit 0) (dk 0)).2).2[z]? ≠
+        (evalLevels (m := Id) h sid bit dk levels (corruptWord msg.t level (bit level) delta)
+          (evalInit (bit 0) (dk 0)).1 (evalInit (bit 0) (dk 0)).2).2[z]? ∧
+      z / 2 ^ (K - level) = ystarOf bit / 2 ^ (K - level) ∧
+      z / 2 ^ (K - 1 - level) ≠ ystarOf bit / 2 ^ (K - 1 - level) := by
+  have hb0 := hb 0 (by decide)
+  have hb1 := hb 1 (by decide)
+  have hb2 := hb 2 (by decide)
+  have hb3 := hb 3 (by decide)
+  have ht3 : msg.t.length = 3 := ht
+  have hlen : (evalLevels (m := Id) h sid bit dk levels msg.t (evalInit (bit 0) (dk 0)).1 (evalInit (bit 0) (dk 0)).2).2.length = Q := by
+    rw [evalLevels_length, levels_eq]
+    have : (evalInit (bit 0) (dk 0)).2.length = 2 := by unfold evalInit; split <;> rfl
+    rw [this]; rfl
+  have key : ∀ (pre post : List Nat) (l : Nat), levels = pre ++ l :: post → pre.length < 3 →
+      (∀ i ∈ pre, bit i ≤ 1) → bit l ≤ 1 → (∀ i ∈ post, bit i ≤ 1) →
+      (sel (bit l) (msg.t.getD pre.length ([], []))).length = KB → (dk l).length = KB →
+      ∃ z, z ≠ ystarOf bit ∧ z < Q ∧
+        (evalLevels (m := Id) h sid bit dk levels msg.t (evalInit (bit 0) (dk 0)).1 (evalInit (bit 0) (dk 0)).2).2[z]? ≠
+          (evalLevels (m := Id) h sid bit dk levels (corruptWord msg.t (pre.length + 1) (bit l) delta)
+            (evalInit (bit 0) (dk 0)).1 (evalInit (bit 0) (dk 0)).2).2[z]? ∧
+        z / 2 ^ (post.length + 1) = ystarOf bit / 2 ^ (post.length + 1) ∧
+        z / 2 ^ post.length ≠ ystarOf bit / 2 ^ post.length := by
+    intro pre post l hlv hpl hbpre hbl hbpost hw' hdk'
+    obtain ⟨z, hz, hne, hsome, hd1, hd2⟩ := tamper_changes_levels h sid hG bit dk pre post l hlv msg.t delta
+      (by rw [ht3]; exact hpl) hb0 hbpre hbl hbpost hw' hdk' hdl hδ
+    refine ⟨z, hz, ?_, hne, hd1, hd2⟩
+    rcases Nat.lt_or_ge z Q with hq | hq
+    · exact hq
+    · rw [List.getElem?_eq_none (by rw [hlen]; exact hq)] at hsome
+      cases hsome
+  have hcase : level = 1 ∨ level = 2 ∨ level = 3 := by
+    have : K - 1 = 3 := rfl
+    omega
+  rcases hcase with rfl | rfl | rfl
+  · exact key [] [2, 3] 1 (by rw [levels_eq]; rfl) (by decide) (by simp) hb1
+      (by intro i hi; simp at hi; rcases hi with rfl | rfl <;> assumption) hw hdk
+  · exact key [1] [3] 2 (by rw [levels_eq]; rfl) (by decide)
+      (by intro i hi; simp at hi; subst hi; assumption) hb2
+      (by intro i hi; simp at hi; subst hi; assumption) hw hdk
+  · exact key [1, 2] [] 3 (by rw [levels_eq]; rfl) (by decide)
+      (by intro i hi; simp at hi; rcases hi with rfl | rfl <;> assumption) hb3 (by simp) hw hdk
+
+/-- **used_word_tamper_rejected_anylevel_partial** (every level; `used_word_tamper_rejected_partial` is the
+    last-level instance with a weaker PRG-free hypothesis set).
+    Full statement: a change of a correction word the receiver reads, in an accepted message, is rejected.
+    Proved under exactly three named hypotheses: `PrgNoCollision` (tree PRG, 32-byte seeds); `hP` — the per-leaf
+    proof hash does not collide between a leaf of the original evaluation and a leaf of the tampered one; `hcol` — the
+    final hash does not collide on the two proof vectors.  Word / key / delta lengths are the Rust types. -/
+theorem used_word_tamper_rejected_anylevel_partial (hG : PrgNoCollision h sid) (bit : Nat → Nat) (dk : Nat → Bytes)
+    (msg : TreeMsg) (level : Nat) (delta : Bytes)
+    (hb : ∀ i < K, bit i ≤ 1) (ht : msg.t.length = K - 1) (hl1 : 1 ≤ level) (hl2 : level ≤ K - 1)
+    (hw : (sel (bit level) (msg.t.getD (level - 1) ([], []))).length = KB) (hdk : (dk level).length = KB)
+    (hdl : delta.length = KB) (hδ : delta ≠ zeros KB)
+    (hacc : (evalTree (m := Id) h sid bit dk msg).isSome)
+    (hP : ∀ a ∈ (evalLevels (m := Id) h sid bit dk levels msg.t (evalInit (bit 0) (dk 0)).1 (evalInit (bit 0) (dk 0)).2).2,
+      ∀ b ∈ (evalLevels (m := Id) h sid bit dk levels (corruptWord msg.t level (bit level) delta) (evalInit (bit 0) (dk 0)).1 (evalInit (bit 0) (dk 0)).2).2,
+      P h sid a = P h sid b → a = b)
+    (hcol :
+      let e := evalLevels (m := Id) h sid bit dk levels msg.t (evalInit (bit 0) (dk 0)).1 (evalInit (bit 0) (dk 0)).2
+      let e' := evalLevels (m := Id) h sid bit dk levels (corruptWord msg.t level (bit level) delta) (evalInit (bit 0) (dk 0)).1 (evalInit (bit 0) (dk 0)).2
+      Hh h sid (vecR h sid e'.1 e'.2 msg.tTilda) = Hh h sid (vecR h sid e.1 e.2 msg.tTilda) →
+        vecR h sid e'.1 e'.2 msg.tTilda = vecR h sid e.1 e.2 msg.tTilda) :
+    evalTree (m := Id) h sid bit dk { msg with t := corruptWord msg.t level (bit level) delta } = none := by
+  obtain ⟨z, hz, _, hne, _, _⟩ := used_word_tamper_changes_leaf h sid hG bit dk msg level delta hb ht hl1 hl2 hw hdk hdl hδ
+  rw [evalTree_accept_iff] at hacc
+  rw [evalTree_id]
+  simp only
+  rw [if_pos]
+  intro e
+  rw [← hacc] at e
+  have hv := hcol e
+  have h1 : (evalLevels (m := Id) h sid bit dk levels msg.t (evalInit (bit 0) (dk 0)).1 (evalInit (bit 0) (dk 0)).2).1 = ystarOf bit := by
+    rw [evalLevels_fst, ystarOf_eq]; rfl
+  have h2 : (evalLevels (m := Id) h sid bit dk levels (corruptWord msg.t level (bit level) delta) (evalInit (bit 0) (dk 0)).1 (evalInit (bit 0) (dk 0)).2).1 = ystarOf bit := by
+    rw [evalLevels_fst, ystarOf_eq]; rfl
+  have hs := congrArg (fun v : List Bytes => v[z]?) hv
+  have hz1 := hz
+  have hz2 := hz
+  rw [← h1] at hz1
+  rw [← h2] at hz2
+  simp only [vecR_getElem?_ne h sid _ _ _ _ hz1, vecR_getElem?_ne h sid _ _ _ _ hz2, List.getElem?_map] at hs
+  apply hne
+  generalize (evalLevels (m := Id) h sid bit dk levels msg.t (evalInit (bit 0) (dk 0)).1 (evalInit (bit 0) (dk 0)).2).2 = L at hP hs ⊢
+  generalize (evalLevels (m := Id) h sid bit dk levels (corruptWord msg.t level (bit level) delta) (evalInit (bit 0) (dk 0)).1 (evalInit (bit 0) (dk 0)).2).2 = L' at hP hs ⊢
+  cases ha : L[z]? with
+  | none => rw [ha] at hs; cases hb' : L'[z]? with
+    | none => rfl
+    | some b => rw [hb'] at hs; cases hs
+  | some a =>
+    rw [ha] at hs
+    cases hb' : L'[z]? with
+    | none => rw [hb'] at hs; cases hs
+    | some b =>
+      rw [hb'] at hs
+      simp only [Option.map_some, Option.some.injEq] at hs
+      rw [hP a (List.mem_of_getElem? ha) b (List.mem_of_getElem? hb') hs.symm]
+
 /-- **selective_failure_partial** (the "accepted" direction, unconditional in the hashes).
     Full statement (checked exhaustively by the harness grid, see `Pprf.advAccepts`): the message of `advTree` —
     wrong correction word `t[level-1][side]`, `t_tilda`/`s_tilda` re-derived for a guessed receiver path — is accepted
@@ -314,6 +424,76 @@ theorem selective_failure_partial (keys : Nat → Bytes × Bytes) (level side : 
   obtain ⟨⟨y, s⟩, hys⟩ := Option.isSome_iff_exists.mp hsome
   obtain ⟨hy, _⟩ := evalTree_ystar h sid _ _ _ y s hys
   exact ⟨s, by rw [hys, hy]⟩
+
+/-- **selective_failure_accepts** (the "if" direction of the adversarial-sender claim, UNCONDITIONAL in the hashes).
+    The receiver's base-OT outputs are consistent with the keys the adversary built its tree from.  Whenever
+    `Pprf.advAccepts level side guess bit` holds — the guess avoids the corrupted word and so does the receiver; or the
+    guess reads it and the receiver's path is the guessed one (at the last level: up to the last bit) — the message of
+    `advTree` is accepted, for every oracle, every `delta`. -/
+theorem selective_failure_accepts (keys : Nat → Bytes × Bytes) (bit : Nat → Nat) (dk : Nat → Bytes)
+    (hc : Consistent keys bit dk) (guess : Nat → Nat) (hg : ∀ i < K, guess i ≤ 1) (level side : Nat) (delta : Bytes)
+    (hl1 : 1 ≤ level) (hl2 : level ≤ K - 1) (hs : side ≤ 1)
+    (hA : advAccepts level side guess bit = true) :
+    (evalTree (m := Id) h sid bit dk (advTree (m := Id) h sid keys level side delta guess)).isSome := by
+  rw [advAccepts_iff] at hA
+  have hr : ∀ i < K, bit i ≤ 1 := fun i hi => (hc i hi).1
+  have hcase : level = 1 ∨ level = 2 ∨ level = 3 := by
+    have : K - 1 = 3 := rfl
+    omega
+  rcases hcase with rfl | rfl | rfl
+  · exact adv_accepts_generic h sid keys bit dk hc guess hg [] [2, 3] (by rw [levels_eq]; rfl) side hs delta
+      (ystar_prefix bit guess hr hg 1 (by decide)) (by decide) hA
+  · exact adv_accepts_generic h sid keys bit dk hc guess hg [1] [3] (by rw [levels_eq]; rfl) side hs delta
+      (ystar_prefix bit guess hr hg 2 (by decide)) (by decide) hA
+  · exact adv_accepts_generic h sid keys bit dk hc guess hg [1, 2] [] (by rw [levels_eq]; rfl) side hs delta
+      (ystar_prefix bit guess hr hg 3 (by decide)) (by decide) hA
+
+/-- **selective_failure_iff_partial**: the message of the adversarial sender (`advTree`: correction word
+    `t[level-1][side]` XORed with a non-zero `delta`, `t_tilda`/`s_tilda` re-derived for the guessed path) is accepted
+    by a receiver with consistent base-OT outputs IFF `Pprf.advAccepts level side guess bit`.
+    The "if" direction is unconditional (`selective_failure_accepts`).  The "only if" direction uses exactly:
+    * `hG` — `PrgNoCollision`: the tree PRG has no collision on 32-byte seeds;
+    * `hP` — the per-leaf proof hash does not collide between a leaf the receiver computes and a leaf of the
+      adversary's vector `advLeaves`;
+    * `hcol` — the final hash does not collide on the receiver's proof vector and the adversary's;
+    * `hSame` — only for the cases "the guess reads the word, the level is not the last one, the receiver's path agrees
+      with the guess up to that level but not everywhere": there the two leaf vectors differ iff a XOR of PRG outputs
+      on related seeds is non-zero (e.g. level 1, paths differing in the last bit only: a 6-term XOR), which is NOT a
+      collision statement; the hypothesis asks for a position where they differ.  In all other cases (guess avoids the
+      word; last level; paths separating before the corrupted level) no such hypothesis is needed. -/
+theorem selective_failure_iff_partial (hG : PrgNoCollision h sid) (keys : Nat → Bytes × Bytes) (bit : Nat → Nat)
+    (dk : Nat → Bytes) (hc : Consistent keys bit dk) (guess : Nat → Nat) (hg : ∀ i < K, guess i ≤ 1)
+    (level side : Nat) (delta : Bytes) (hl1 : 1 ≤ level) (hl2 : level ≤ K - 1) (hs : side ≤ 1)
+    (hdl : delta.length = KB) (hδ : delta ≠ zeros KB)
+    (hcol : Hh h sid (vecR h sid (ystarOf bit) (recvEval h sid keys level side delta bit dk).2
+        (((advLeaves h sid keys level side delta guess).map (P h sid)).foldl xorBytes (zeros (2*KB))))
+        = Hh h sid ((advLeaves h sid keys level side delta guess).map (P h sid)) →
+      vecR h sid (ystarOf bit) (recvEval h sid keys level side delta bit dk).2
+        (((advLeaves h sid keys level side delta guess).map (P h sid)).foldl xorBytes (zeros (2*KB)))
+        = (advLeaves h sid keys level side delta guess).map (P h sid))
+    (hP : ∀ a ∈ (recvEval h sid keys level side delta bit dk).2, ∀ b ∈ advLeaves h sid keys level side delta guess,
+      P h sid a = P h sid b → a = b)
+    (hSame : guess level = side → level < K - 1 → (∀ i < level, bit i = guess i) → ¬ (∀ i < K, bit i = guess i) →
+      ∃ y, y ≠ ystarOf bit ∧ (recvEval h sid keys level side delta bit dk).2[y]? ≠
+        (advLeaves h sid keys level side delta guess)[y]?) :
+    (evalTree (m := Id) h sid bit dk (advTree (m := Id) h sid keys level side delta guess)).isSome ↔
+      advAccepts level side guess bit = true := by
+  constructor
+  · intro hacc
+    have heq := adv_leaves_of_accept h sid keys level side delta guess bit dk hcol hP hacc
+    rw [advAccepts_iff]
+    have hr : ∀ i < K, bit i ≤ 1 := fun i hi => (hc i hi).1
+    have hcase : level = 1 ∨ level = 2 ∨ level = 3 := by
+      have : K - 1 = 3 := rfl
+      omega
+    rcases hcase with rfl | rfl | rfl
+    · exact adv_rejects_generic h sid keys bit dk hc guess hg [] [2, 3] (by rw [levels_eq]; rfl) side hs delta
+        (ystar_prefix bit guess hr hg 1 (by decide)) hG hdl hδ hSame heq
+    · exact adv_rejects_generic h sid keys bit dk hc guess hg [1] [3] (by rw [levels_eq]; rfl) side hs delta
+        (ystar_prefix bit guess hr hg 2 (by decide)) hG hdl hδ hSame heq
+    · exact adv_rejects_generic h sid keys bit dk hc guess hg [1, 2] [] (by rw [levels_eq]; rfl) side hs delta
+        (ystar_prefix bit guess hr hg 3 (by decide)) hG hdl hδ hSame heq
+  · exact selective_failure_accepts h sid keys bit dk hc guess hg level side delta hl1 hl2 hs
 
 /-! ### non-vacuity -/
 
@@ -394,9 +574,70 @@ example : evalTree (m := Id) toyH [] toyBit toyDk
   used_word_tamper_rejected_partial toyH [] toyBit toyDk _ _ (by decide) (by decide) (by decide) (by decide) (by decide)
     (by decide) toyAccepted (by decide) (by decide)
 
+/-- a toy hash without collisions on short inputs: the answer is the data of the last message of the transcript
+    (so the tree PRG maps a 32-byte seed `a` to `(a, a)`) -/
+def lastMsg (ops : List TOp) : Bytes := ops.foldl (fun acc op => match op with | .msg _ d => d | _ => acc) []
+def toyInj : Query → Bytes
+  | .merlin t => lastMsg t.ops
+  | _ => []
+
+theorem fixLen_self (a : Bytes) (n : Nat) (ha : a.length = n) : fixLen n a = a := by
+  unfold fixLen; rw [← ha]; simp
+
+theorem toyInj_prg : PrgNoCollision toyInj [] := by
+  intro a b ha hb e
+  have h1 : G toyInj [] a = (fixLen KB a, fixLen KB a) := rfl
+  have h2 : G toyInj [] b = (fixLen KB b, fixLen KB b) := rfl
+  rw [h1, h2, fixLen_self a KB ha, fixLen_self b KB hb] at e
+  exact (Prod.ext_iff.mp e).1
+
+def bitX : Nat → Nat := fun i => if i = 1 then 1 else 0
+def dkX : Nat → Bytes := fun i => sel (bitX i) (toyTreeKeys i)
+
+theorem toyConsistentX : Consistent toyTreeKeys bitX dkX := by
+  intro i hi
+  refine ⟨by unfold bitX; split <;> omega, by simp [toyTreeKeys]; rfl, by simp [toyTreeKeys]; rfl, rfl⟩
+
+theorem toyAcceptedX : (evalTree (m := Id) toyInj [] bitX dkX (buildTree (m := Id) toyInj [] toyTreeKeys).2).isSome := by
+  obtain ⟨s, hs, _⟩ := tree_correct toyInj [] toyTreeKeys bitX dkX toyConsistentX
+  rw [hs]; rfl
+
+/-- `used_word_tamper_changes_leaf` / `used_word_tamper_rejected_anylevel_partial`: all hypotheses hold for the toy
+    hash, level 1 (the first correction word), one flipped bit -/
+example : ∃ z, z ≠ ystarOf bitX ∧ z < Q ∧
+    (evalLevels (m := Id) toyInj [] bitX dkX levels (buildTree (m := Id) toyInj [] toyTreeKeys).2.t (evalInit (bitX 0) (dkX 0)).1 (evalInit (bitX 0) (dkX 0)).2).2[z]? ≠
+      (evalLevels (m := Id) toyInj [] bitX dkX levels (corruptWord (buildTree (m := Id) toyInj [] toyTreeKeys).2.t 1 (bitX 1) (1 :: List.replicate 31 0))
+        (evalInit (bitX 0) (dkX 0)).1 (evalInit (bitX 0) (dkX 0)).2).2[z]? ∧
+    z / 2 ^ (K - 1) = ystarOf bitX / 2 ^ (K - 1) ∧ z / 2 ^ (K - 1 - 1) ≠ ystarOf bitX / 2 ^ (K - 1 - 1) :=
+  used_word_tamper_changes_leaf toyInj [] toyInj_prg bitX dkX _ 1 _ (by decide) (by decide) (by decide) (by decide)
+    (by decide) (by decide) (by decide) (by decide)
+
+example : evalTree (m := Id) toyInj [] bitX dkX
+    { (buildTree (m := Id) toyInj [] toyTreeKeys).2 with
+      t := corruptWord (buildTree (m := Id) toyInj [] toyTreeKeys).2.t 1 (bitX 1) (1 :: List.replicate 31 0) } = none :=
+  used_word_tamper_rejected_anylevel_partial toyInj [] toyInj_prg bitX dkX _ 1 _ (by decide) (by decide) (by decide)
+    (by decide) (by decide) (by decide) (by decide) (by decide) toyAcceptedX (by decide) (by decide)
+
 /-- `selective_failure_partial`: the adversarial message for the guess 1,0,1,0 with a wrong word at level 2, side 0 -/
 example : ∃ s, evalTree (m := Id) toyH [5] (fun i => (i + 1) % 2) (fun i => sel ((i + 1) % 2) (toyTreeKeys i))
     (advTree (m := Id) toyH [5] toyTreeKeys 2 0 (List.replicate 32 255) (fun i => (i + 1) % 2)) = some (5, s) :=
   selective_failure_partial toyH [5] toyTreeKeys 2 0 _ _ (by intro i _; omega)
+
+/-- `selective_failure_accepts`: last level, the receiver (bits 0,1,0,0) agrees with the guess (0,1,0,1) except in the
+    last bit — accepted although the guess of the full path is wrong -/
+example : (evalTree (m := Id) toyInj [] bitX dkX
+    (advTree (m := Id) toyInj [] toyTreeKeys 3 1 (1 :: List.replicate 31 0) (fun i => if i = 1 ∨ i = 3 then 1 else 0))).isSome :=
+  selective_failure_accepts toyInj [] toyTreeKeys bitX dkX toyConsistentX _ (by decide) 3 1 _ (by decide) (by decide)
+    (by decide) (by decide)
+
+/-- `selective_failure_iff_partial`: all hypotheses hold for the toy hash; guess (0,0,0,1) reads the corrupted word of
+    the last level, the receiver (0,1,0,0) leaves the guessed path at level 1: rejected -/
+example : (evalTree (m := Id) toyInj [] bitX dkX
+      (advTree (m := Id) toyInj [] toyTreeKeys 3 1 (1 :: List.replicate 31 0) (fun i => if i = 3 then 1 else 0))).isSome ↔
+    advAccepts 3 1 (fun i => if i = 3 then 1 else 0) bitX = true :=
+  selective_failure_iff_partial toyInj [] toyInj_prg toyTreeKeys bitX dkX toyConsistentX _ (by decide) 3 1 _ (by decide)
+    (by decide) (by decide) (by decide) (by decide) (by decide) (by decide) (fun _ hlt => absurd hlt (by decide))
+
+example : advAccepts 3 1 (fun i => if i = 3 then 1 else 0) bitX = false := by decide
 
 end SlVerif.C06
